@@ -92,7 +92,7 @@ theorem fragC_scalar {env : Env} {file : AFile} {G : List String} {Γ : Ctx} {K 
     simp only [fragC, Bool.or_eq_true] at h
     cases f with
     | var name fty =>
-      rcases h with h | h
+      rcases h with (h | h) | h
       · simp only [callOK, Bool.and_eq_true] at h
         obtain ⟨_, hcase⟩ := h
         cases hs : builtinSig name with
@@ -131,8 +131,29 @@ theorem fragC_scalar {env : Env} {file : AFile} {G : List String} {Γ : Ctx} {K 
                   exact scalarEq_flat hcase.1.2
                 | _ => rw [hrty] at hcase; cases hcase
             · rw [if_neg h3] at hcase; cases hcase
-    | prim p t => simp [callOK, refCallOK] at h
-    | tag i t => simp [callOK, refCallOK] at h
+      · simp only [arrCallOK, Bool.and_eq_true, beq_iff_eq] at h
+        obtain ⟨_, hcase⟩ := h
+        simp only [CExpr.annTy]
+        cases args with
+        | nil => cases hcase
+        | cons a rest =>
+          cases rest with
+          | nil => cases hcase
+          | cons i rest =>
+            simp only at hcase
+            cases haty : a.ty with
+            | array len e =>
+              rw [haty] at hcase; simp only [Bool.and_eq_true] at hcase
+              obtain ⟨_, hif⟩ := hcase
+              by_cases h1 : name = "array_get"
+              · rw [if_pos h1] at hif; simp only [Bool.and_eq_true] at hif; exact scalarEq_flat hif.2
+              · rw [if_neg h1] at hif
+                by_cases h2 : name = "array_set"
+                · rw [if_pos h2] at hif; simp only [Bool.and_eq_true] at hif; exact scalarEq_flat hif.2
+                · rw [if_neg h2] at hif; cases hif
+            | _ => rw [haty] at hcase; cases hcase
+    | prim p t => simp [callOK, refCallOK, arrCallOK] at h
+    | tag i t => simp [callOK, refCallOK, arrCallOK] at h
   | ite c t e ty => simp only [fragC, Bool.and_eq_true] at h; exact scalarEq_scalar_right h.1.2
   | «while» c b ty => simp only [fragC, Bool.and_eq_true] at h; exact scalarEq_flat h.2
   | matchE s arms d ty => simp only [fragC, Bool.and_eq_true] at h; exact h.1.2
@@ -147,7 +168,13 @@ theorem fragC_scalar {env : Env} {file : AFile} {G : List String} {Γ : Ctx} {K 
       simp only [Bool.and_eq_true, tupleTyOK] at h
       exact valTy_flat h.2.1
     | _ => exact absurd h (by simp)
-  | array items ty => simp [fragC] at h
+  | array items ty =>
+    simp only [fragC] at h
+    cases ty with
+    | array len e =>
+      simp only [Bool.and_eq_true] at h
+      exact valTy_flat h.2
+    | _ => exact absurd h (by simp)
   | cget e c idx ty =>
     cases c with
     | enum tn vn' vi =>
